@@ -34,7 +34,10 @@ ASSUMPTIONS = [
     "scale / min(h) (measured floors 4e-16 resp. 3e-16 in these units)",
     "gradient is demanded only for affine components (statement: 'exact for linear functions'); at a "
     "grid line or box boundary any one-sided value is the same constant, so it is demanded there too",
-    "adaptive tables get dx = (high-low)/(npt-1) and base_point = low (and base_point=None where low=0)",
+    "adaptive tables get dx = (high-low)/(npt-1) and base_point = low (and base_point=None where low=0); "
+    "further variants: base_point=None (origin) for boxes not starting at 0 and base_point at an interior "
+    "table node, so that queries lie below the base point (negative cell indices); the functions of the "
+    "alphabet are multilinear, hence exact on any cell alignment",
     "queries outside the box are not part of the alphabet",
     "purity: low / high / npt and the query array are shared by all tables of a case and must be unchanged at its end",
 ]
@@ -328,6 +331,13 @@ def run_case(case) -> Outcome:
                     ("adaptive-lazy", low, order3, False)]
         if not low.any():
             variants.append(("adaptive-nobase", None, np.arange(Q.shape[1]), True))
+        else:
+            # base point at the origin although the box does not start there: queries lie on
+            # both sides of the base point (negative cell indices), cells are not box-aligned
+            variants.append(("adaptive-origin", None, np.arange(Q.shape[1]), True))
+        # base point at an interior / upper table node: every query below it has a negative index
+        mid = low + h * np.maximum(1, (np.asarray(case["npt"]) - 1) // 2)
+        variants.append(("adaptive-midbase", mid, order2, True))
         for tname, base, order, batch in variants:
             try:
                 A = fresh(base)
